@@ -17,7 +17,7 @@ pub struct PB {
     regs: Vec<V>,
     init: Vec<V>,
     calls: Vec<String>,
-    next: usize,
+    pub next: usize,
     pub qok: bool,    // every call so far was executable at Q
     pub fsafe: bool,  // replay at f64 is meaningful
     pub dead: bool,
@@ -58,7 +58,8 @@ impl PB {
                     else { self.regs[dst] = v; }
                 }
                 Outcome::NotExecutable(_) => { self.qok = false; }
-                Outcome::Unsupported => { eprintln!("driver2: unsupported {} {}", op, f); self.dead = true; return; }
+                // not an op of the exact scalar (serde, primitive-only impls): recorded, run at the other scalars only
+                Outcome::Unsupported => { self.qok = false; }
             }
         }
         self.calls.push(rec);
@@ -220,7 +221,7 @@ fn gen_c06(p: &Pools, rng: &mut Rng, pb: &mut PB) {
             let v = pb.load(Val::V3(rv3(rng)));
             match ty {
                 "Matrix3" => { pb.call("mul", "vv", &[r, v]); pb.call("det", "m", &[r]); }
-                "Matrix4" => { let v4 = pb.call("extend", "m", &[v, ax]); let _ = v4; }
+                "Matrix4" => { let z = pb.load(vs(q(0, 1))); let v4 = pb.call("extend", "m", &[v, z]); pb.call("mul", "vv", &[r, v4]); }
                 "Basis3" => { pb.call("rotate_vector", "m", &[r, v]); pb.call("rot_invert", "m", &[r]); }
                 _ => { pb.call("rotate_vector", "m", &[r, v]); pb.call("rot_invert", "m", &[r]); pb.call("mat3_from_quat", "m", &[r]); }
             }
@@ -820,10 +821,292 @@ fn gen_c15(p: &Pools, rng: &mut Rng, pb: &mut PB) {
     }
 }
 
+// ------------------------------------------------------------------ C16
+fn distinct(rng: &mut Rng, n: usize) -> Vec<Q> {
+    let mut pool: Vec<i128> = (1..=40).collect();
+    let mut out = Vec::new();
+    for _ in 0..n { let i = rng.below(pool.len()); out.push(Q::int(pool.remove(i))); }
+    out
+}
+fn typed_from(ty: &str, c: &[Q]) -> V {
+    match ty {
+        "Vector1" => Val::V1(Vector1::new(c[0])), "Vector2" => Val::V2(Vector2::new(c[0], c[1])), "Vector3" => Val::V3(Vector3::new(c[0], c[1], c[2])),
+        "Vector4" => Val::V4(Vector4::new(c[0], c[1], c[2], c[3])),
+        "Point1" => Val::P1(Point1::new(c[0])), "Point2" => Val::P2(Point2::new(c[0], c[1])), "Point3" => Val::P3(Point3::new(c[0], c[1], c[2])),
+        "Matrix2" => Val::M2(Matrix2::new(c[0], c[1], c[2], c[3])),
+        "Matrix3" => Val::M3(Matrix3::new(c[0], c[1], c[2], c[3], c[4], c[5], c[6], c[7], c[8])),
+        "Matrix4" => Val::M4(Matrix4::new(c[0], c[1], c[2], c[3], c[4], c[5], c[6], c[7], c[8], c[9], c[10], c[11], c[12], c[13], c[14], c[15])),
+        _ => Val::Q(Quaternion::new(c[3], c[0], c[1], c[2])),
+    }
+}
+fn ncomp(ty: &str) -> usize { match ty { "Vector1" | "Point1" => 1, "Vector2" | "Point2" => 2, "Vector3" | "Point3" => 3, "Vector4" | "Matrix2" | "Quaternion" => 4, "Matrix3" => 9, _ => 16 } }
+const ALLTY: &[&str] = &["Vector1", "Vector2", "Vector3", "Vector4", "Point1", "Point2", "Point3", "Matrix2", "Matrix3", "Matrix4", "Quaternion"];
+fn read_views(ty: &str) -> Vec<&'static str> {
+    let mut v = vec!["fields", "index", "array_into", "array_ref"];
+    if ty.starts_with("Matrix") { v.extend_from_slice(&["flat_ref", "ptr", "conv", "mint"]); }
+    else {
+        v.extend_from_slice(&["tuple_into", "tuple_ref", "range_full", "range"]);
+        if ty != "Vector1" && ty != "Point1" { v.push("mint"); v.push("range_to_from"); }
+        if ty != "Quaternion" { v.push("ptr"); if ty != "Vector1" && ty != "Point1" { v.push("conv"); } }
+    }
+    v
+}
+fn from_views(ty: &str) -> Vec<&'static str> {
+    if ty.starts_with("Matrix") { vec!["array", "array_ref", "array_mut", "flat_ref", "flat_mut", "mint"] }
+    else { let mut v = vec!["array", "array_ref", "array_mut", "tuple", "tuple_ref", "tuple_mut"]; if ty != "Quaternion" { v.push("new"); }
+           if ty != "Vector1" && ty != "Point1" { v.push("mint"); } v }
+}
+fn write_views(ty: &str) -> Vec<&'static str> {
+    if ty.starts_with("Matrix") { vec!["index", "array_mut", "flat_mut", "col_mut", "from_flat_mut"] }
+    else if ty == "Quaternion" { vec!["index", "array_mut", "tuple_mut", "range_mut", "fields"] }
+    else { vec!["index", "array_mut", "tuple_mut", "range_mut", "ptr_mut", "fields", "from_array_mut"] }
+}
+fn gen_c16(_p: &Pools, rng: &mut Rng, pb: &mut PB) {
+    let ty = *rng.pick(ALLTY);
+    let n = ncomp(ty);
+    let c = distinct(rng, n);
+    match rng.below(7) {
+        0 => {
+            let x = pb.load(typed_from(ty, &c));
+            let views = read_views(ty);
+            for _ in 0..3 { let v = *rng.pick(&views); pb.call("view_read", v, &[x]); }
+        }
+        1 => {
+            if n > 5 { // too many scalars for the register file: a 2x2 matrix instead
+                let c = distinct(rng, 4);
+                let regs: Vec<usize> = c.iter().map(|s| pb.load(vs(*s))).collect();
+                let (t1, t2) = (pb.load(t("Matrix2")), pb.load(t(*rng.pick(&from_views("Matrix2")))));
+                let mut a = vec![t1, t2]; a.extend(regs);
+                let x = pb.call("view_from", "m", &a);
+                pb.call_reuse("view_read", *rng.pick(&read_views("Matrix2")), &[x], a[2]);
+                return;
+            }
+            let regs: Vec<usize> = c.iter().map(|s| pb.load(vs(*s))).collect();
+            let (t1, t2) = (pb.load(t(ty)), pb.load(t(*rng.pick(&from_views(ty)))));
+            let mut a = vec![t1, t2]; a.extend(regs.iter().cloned());
+            let x = pb.call("view_from", "m", &a);
+            pb.call_reuse("view_read", *rng.pick(&read_views(ty)), &[x], regs[0]);
+            if ty == "Quaternion" { pb.call_reuse("quat_new", "m", &[regs[3], regs[1], regs[2], regs[3]], t2); }
+        }
+        2 => {
+            // writes through mutable views are visible through all others
+            let mut x = pb.load(typed_from(ty, &c));
+            let wv = write_views(ty);
+            for _ in 0..(1 + rng.below(3)) {
+                let i = if rng.chance(1, 10) { (n + rng.below(3)) as i64 } else { rng.below(n) as i64 };
+                let (view, ii, s) = (pb.load(t(*rng.pick(&wv))), pb.load(Val::I(i)), pb.load(vs(Q::int(50 + rng.range(0, 40) as i128))));
+                x = pb.call_reuse("view_write", "m", &[x, view, ii, s], ii);
+                if i as usize >= n { return; }
+            }
+            let rv = read_views(ty);
+            pb.call("view_read", *rng.pick(&rv), &[x]);
+        }
+        3 => {
+            if ty.starts_with("Matrix") {
+                let x = pb.load(typed_from(ty, &c));
+                let m = if ty == "Matrix2" { 2 } else if ty == "Matrix3" { 3 } else { 4 };
+                let i = pb.load(Val::I(*rng.pick(&[m as i64, m as i64 + 1, m as i64 + 2, -1, 0, m as i64 - 1])));
+                pb.call("col", "m", &[x, i]);
+                return;
+            }
+            let x = pb.load(typed_from(ty, &c));
+            let i = pb.load(Val::I(*rng.pick(&[n as i64, n as i64 + 1, n as i64 + 2, -1, 0, n as i64 - 1])));
+            pb.call("index", "m", &[x, i]);
+            let kind = pb.load(t(*rng.pick(&["range", "to", "from"])));
+            let (lo, hi) = (pb.load(Val::I(rng.range(0, n as i64 + 1))), pb.load(Val::I(rng.range(0, n as i64 + 2))));
+            pb.call("index_range", "m", &[x, kind, lo, hi]);
+        }
+        4 => {
+            if ty.starts_with("Matrix") || ty == "Quaternion" { return; }
+            let x = pb.load(typed_from(ty, &c));
+            let (i, j) = (pb.load(Val::I(rng.below(n) as i64)), pb.load(Val::I(if rng.chance(1, 8) { n as i64 } else { rng.below(n) as i64 })));
+            pb.call("swap_elements", "m", &[x, i, j]);
+            let k = pb.load(vs(Q::int(rng.range(1, 9) as i128)));
+            pb.call("map", "m", &[x, k]);
+            let y = pb.load(typed_from(ty, &distinct(rng, n)));
+            pb.call("zip", "m", &[x, y]);
+        }
+        5 => {
+            // swizzles: a random word over the type's letters
+            if ty.starts_with("Matrix") || ty == "Quaternion" { return; }
+            let x = pb.load(typed_from(ty, &c));
+            let maxlen = if ty.starts_with("Point") { 3 } else { 4 };
+            let len = 1 + rng.below(maxlen);
+            let ix: Vec<usize> = (0..len).map(|_| 1 + rng.below(n)).collect();
+            let word: String = ix.iter().map(|i| ["x", "y", "z", "w"][i - 1]).collect();
+            let mut a = vec![x, pb.load(t(&word))];
+            for i in &ix { a.push(pb.load(Val::I(*i as i64))); }
+            pb.call("swizzle", "m", &a);
+        }
+        _ => {
+            if !(ty == "Vector2" || ty == "Vector3" || ty == "Vector4") { return; }
+            let x = pb.load(typed_from(ty, &c));
+            if ty != "Vector4" { let s = pb.load(vs(Q::int(77))); pb.call("extend", "m", &[x, s]); }
+            if ty != "Vector2" { pb.call("truncate", "m", &[x]); }
+            if ty == "Vector4" { let i = pb.load(Val::I(*rng.pick(&[0i64, 1, 2, 3, 4, -1]))); pb.call("truncate_n", "m", &[x, i]); }
+        }
+    }
+}
+
+// ------------------------------------------------------------------ C18
+fn perturb(c: &[Q], i: usize, d: Q) -> Vec<Q> { let mut v = c.to_vec(); v[i] = v[i] + d; v }
+fn compound_from(p: &Pools, rng: &mut Rng, kind: &str, c: &[Q]) -> V {
+    match kind {
+        "Basis2" => Val::B2(basis2_from(Matrix2::new(c[0], c[1], c[2], c[3]))),
+        "Basis3" => Val::B3(basis3_from(Matrix3::new(c[0], c[1], c[2], c[3], c[4], c[5], c[6], c[7], c[8]))),
+        "DecQ" => Val::DQ(Decomposed { scale: c[0], rot: Quaternion::new(c[4], c[1], c[2], c[3]), disp: Vector3::new(c[5], c[6], c[7]) }),
+        "Dec3" => Val::D3(Decomposed { scale: c[0], rot: basis3_from(Matrix3::new(c[1], c[2], c[3], c[4], c[5], c[6], c[7], c[8], c[9])), disp: Vector3::new(c[10], c[11], c[12]) }),
+        "Dec2" => Val::D2(Decomposed { scale: c[0], rot: basis2_from(Matrix2::new(c[1], c[2], c[3], c[4])), disp: Vector2::new(c[5], c[6]) }),
+        _ => { let _ = (p, rng); typed_from(kind, c) }
+    }
+}
+fn ncomp2(kind: &str) -> usize { match kind { "Basis2" => 4, "Basis3" => 9, "DecQ" => 8, "Dec3" => 13, "Dec2" => 7, _ => ncomp(kind) } }
+fn gen_c18(p: &Pools, rng: &mut Rng, pb: &mut PB) {
+    match rng.below(6) {
+        0 | 1 | 2 => {
+            // pairs differing in exactly one component by an amount just inside, on, or just outside the tolerance
+            let kinds = ["Vector1", "Vector2", "Vector3", "Vector4", "Point1", "Point2", "Point3", "Matrix2", "Matrix3", "Matrix4", "Quaternion",
+                         "Basis2", "Basis3", "DecQ", "Dec3", "Dec2"];
+            let kind = *rng.pick(&kinds);
+            let n = ncomp2(kind);
+            let c: Vec<Q> = (0..n).map(|_| q(rng.range(-8, 8) as i128, *rng.pick(&[1, 2, 4]))).collect();
+            let i = rng.below(n);
+            let d = *rng.pick(&[q(1, 16), q(1, 4), q(1, 8), q(-1, 4), q(-1, 16), q(0, 1), q(3, 16)]);
+            let (x, y) = (pb.load(compound_from(p, rng, kind, &c)), pb.load(compound_from(p, rng, kind, &perturb(&c, i, d))));
+            let e = pb.load(vs(q(1, 8)));
+            match rng.below(4) {
+                0 => { pb.call("abs_diff_eq", "m", &[x, y, e]); pb.call("abs_diff_eq", "m", &[y, x, e]); }
+                1 => { let r = pb.load(vs(*rng.pick(&[q(1, 64), q(1, 16), q(1, 2)]))); let e0 = pb.load(vs(q(1, 1024))); pb.call("relative_eq", "m", &[x, y, e0, r]); pb.call("relative_eq", "m", &[y, x, e0, r]); }
+                2 => { let u = pb.load(Val::I(4)); pb.call("ulps_eq", "m", &[x, y, e, u]); pb.call("ulps_eq", "m", &[x, x, e, u]); }
+                _ => { pb.call("eq", "m", &[x, y]); pb.call("eq", "m", &[x, x]); }
+            }
+        }
+        3 => {
+            // angles and Euler triples, built from raw numbers inside the call
+            let unit = *rng.pick(&["Rad", "Deg", "ERad", "EDeg"]);
+            let n = if unit.starts_with('E') { 3 } else { 1 };
+            let c: Vec<Q> = (0..n).map(|_| q(rng.range(-8, 8) as i128, *rng.pick(&[1, 2, 4]))).collect();
+            let i = rng.below(n);
+            let d = *rng.pick(&[q(1, 16), q(1, 4), q(1, 8), q(-1, 4), q(0, 1)]);
+            let c2 = perturb(&c, i, d);
+            let mut a = vec![pb.load(t(unit))];
+            for s in c.iter().chain(c2.iter()) { a.push(pb.load(vs(*s))); }
+            a.push(pb.load(vs(q(1, 8))));
+            match rng.below(3) {
+                0 => { pb.call("abs_diff_eq", "raw", &a); }
+                1 => { a.push(pb.load(vs(q(1, 16)))); pb.call("relative_eq", "raw", &a); }
+                _ => { a.push(pb.load(Val::I(4))); pb.call("ulps_eq", "raw", &a); }
+            }
+        }
+        4 => {
+            // matrix predicates: exactly one perturbed element
+            let m = 2 + rng.below(3);
+            let ty = ["Matrix2", "Matrix3", "Matrix4"][m - 2];
+            let which = rng.below(5);
+            let mut e: Vec<Q> = Vec::new();
+            let sym: Vec<Q> = (0..m * m).map(|_| small(rng)).collect();
+            for cc in 0..m { for r in 0..m {
+                e.push(match which {
+                    0 => if cc == r { q(1, 1) } else { q(0, 1) },                       // identity
+                    1 => if cc == r { small(rng) } else { q(0, 1) },                    // diagonal
+                    2 => sym[cc.min(r) * m + cc.max(r)],                                // symmetric
+                    3 => q(0, 1),                                                       // zero
+                    _ => small(rng),
+                });
+            } }
+            if rng.chance(3, 4) { let i = rng.below(m * m); e[i] = e[i] + *rng.pick(&[q(1, 1024), q(1, 4), q(-1, 8)]); }
+            let x = pb.load(typed_from(ty, &e));
+            pb.call("is_identity", "m", &[x]);
+            pb.call("is_diagonal", "m", &[x]);
+            pb.call("is_symmetric", "m", &[x]);
+            pb.call("is_zero_approx", "m", &[x]);
+            pb.call("is_invertible", "m", &[x]);
+        }
+        _ => {
+            // is_finite with one non-finite component; is_zero; is_perpendicular
+            let kinds = ["Vector2", "Vector3", "Vector4", "Point2", "Point3", "Matrix2", "Matrix3", "Matrix4", "Quaternion"];
+            let kind = *rng.pick(&kinds);
+            let n = ncomp(kind);
+            let mut c: Vec<Q> = (0..n).map(|_| small(rng)).collect();
+            if rng.chance(2, 3) { let i = rng.below(n); c[i] = *rng.pick(&[Q::new(1, 0), Q::new(-1, 0), Q::new(0, 0)]); }
+            let x = pb.load(typed_from(kind, &c));
+            pb.call("is_finite", "m", &[x]);
+            if kind == "Quaternion" { let z = pb.load(typed_from(kind, &[q(0, 1), q(0, 1), if rng.chance(1, 2) { q(1, 8) } else { q(0, 1) }, q(0, 1)])); pb.call("is_zero_approx", "m", &[z]); }
+            if kind.starts_with("Vector") {
+                let u: Vec<Q> = (0..n).map(|_| small(rng)).collect();
+                let (ru, rv) = (pb.load(typed_from(kind, &u)), pb.load(typed_from(kind, &(0..n).map(|_| small(rng)).collect::<Vec<Q>>())));
+                pb.call("is_perpendicular", "m", &[ru, rv]);
+                pb.call("is_zero", "m", &[ru]);
+            }
+        }
+    }
+}
+
+// ------------------------------------------------------------------ C19
+const SCALARS: &[&str] = &["i8", "i16", "i32", "i64", "isize", "u8", "u16", "u32", "u64", "usize", "f32", "f64"];
+fn gen_c19(_p: &Pools, rng: &mut Rng, pb: &mut PB) {
+    let ty = *rng.pick(&["Vector1", "Vector2", "Vector3", "Vector4", "Point1", "Point2", "Point3", "Matrix2", "Quaternion", "Vector3", "Vector4", "Point3"]);
+    let src = *rng.pick(SCALARS);
+    let dst = if ty == "Quaternion" { *rng.pick(&["f32", "f64"]) } else { *rng.pick(SCALARS) };
+    let n = ncomp(ty);
+    let safe = ["zero", "one", "two", "seven", "hundred"];
+    let risky = ["max", "min", "neg1", "mid", "big", "p200", "p70000", "nan", "inf", "ninf", "half", "nhalf", "huge"];
+    // mostly convertible components with failures at zero, one or two positions
+    let mut toks: Vec<&str> = (0..n).map(|_| *rng.pick(&safe)).collect();
+    for _ in 0..rng.below(3) { let i = rng.below(n); toks[i] = *rng.pick(&risky); }
+    let mut a = vec![pb.load(t(ty)), pb.load(t(src)), pb.load(t(dst))];
+    for tk in &toks { a.push(pb.load(t(tk))); }
+    pb.call("cast", "m", &a);
+}
+
+// ------------------------------------------------------------------ C20
+fn gen_c20(p: &Pools, rng: &mut Rng, pb: &mut PB) {
+    let kinds = ["Vector1", "Vector2", "Vector3", "Vector4", "Point1", "Point2", "Point3", "Matrix2", "Matrix3", "Matrix4", "Quaternion",
+                 "Basis2", "Basis3", "DecQ", "Dec3", "Dec2", "Rad", "Deg", "ERad", "EDeg", "Ortho", "Persp", "PFov", "Planar"];
+    let kind = *rng.pick(&kinds);
+    let mk = |rng: &mut Rng| -> (V, usize) {
+        match kind {
+            "Rad" => (rad_val(sym(1, 1, 0)), 1), "Deg" => (deg_val(sym(-1, 2, 0)), 1),
+            "ERad" => (Val::ERad(Euler::new(Rad(<Q as crate::sc::Sc>::dec_ang(sym(1, 0, 0), crate::ang::Unit::Rad)), Rad(<Q as crate::sc::Sc>::dec_ang(sym(0, 1, 0), crate::ang::Unit::Rad)), Rad(<Q as crate::sc::Sc>::dec_ang(sym(2, -1, 0), crate::ang::Unit::Rad)))), 3),
+            "EDeg" => (Val::EDeg(Euler::new(Deg(<Q as crate::sc::Sc>::dec_ang(sym(1, 0, 0), crate::ang::Unit::Deg)), Deg(<Q as crate::sc::Sc>::dec_ang(sym(0, 1, 0), crate::ang::Unit::Deg)), Deg(<Q as crate::sc::Sc>::dec_ang(sym(2, -1, 0), crate::ang::Unit::Deg)))), 3),
+            "Ortho" | "Persp" => { let c = distinct(rng, 6); let o = (c[0], c[1], c[2], c[3], c[4], c[5]);
+                (if kind == "Ortho" { Val::POrtho(Ortho { left: o.0, right: o.1, bottom: o.2, top: o.3, near: o.4, far: o.5 }) }
+                 else { Val::PPersp(Perspective { left: o.0, right: o.1, bottom: o.2, top: o.3, near: o.4, far: o.5 }) }, 6) }
+            "PFov" => { let c = distinct(rng, 3); (Val::PFov(PerspectiveFov { fovy: Rad(<Q as crate::sc::Sc>::dec_ang(sym(0, 1, 0), crate::ang::Unit::Rad)), aspect: c[0], near: c[1], far: c[2] }), 4) }
+            "Planar" => { let c = distinct(rng, 4); (Val::Planar(PlanarFov { fovy: Rad(<Q as crate::sc::Sc>::dec_ang(sym(0, 1, 0), crate::ang::Unit::Rad)), aspect: c[0], height: c[1], near: c[2], far: c[3] }), 5) }
+            _ => { let n = ncomp2(kind); let c = distinct(rng, n); (compound_from(p, rng, kind, &c), n) }
+        }
+    };
+    let (v, n) = mk(rng);
+    let x = pb.load(v);
+    match rng.below(3) {
+        0 => { pb.call("serde_shape", "m", &[x]); }
+        1 => {
+            if n > 6 { pb.call("serde_shape", "m", &[x]); return; }
+            let toks = ["nzero", "sub", "nsub", "max", "min", "tiny", "third", "pi", "eps", "one", "big", "tenth"];
+            let mut a = vec![x];
+            for _ in 0..n { a.push(pb.load(t(*rng.pick(&toks)))); }
+            pb.call("serde_special", "m", &a);
+        }
+        _ => {
+            if !kind.starts_with("Dec") { pb.call("serde_shape", "m", &[x]); return; }
+            // a random arrangement of a subset of the fields, possibly with an unknown one
+            let mut keys: Vec<&str> = vec!["scale", "rot", "disp"];
+            if rng.chance(1, 2) { let i = rng.below(keys.len()); keys.remove(i); }
+            if rng.chance(1, 3) { let i = rng.below(keys.len() + 1); keys.insert(i, "bogus"); }
+            for i in (1..keys.len()).rev() { let j = rng.below(i + 1); keys.swap(i, j); }
+            let mut a = vec![x];
+            for k in &keys { a.push(pb.load(t(k))); }
+            pb.call("serde_dec_keys", "m", &a);
+        }
+    }
+}
+
 pub fn drive2(profile: &str, seed: u64, count: usize) -> Vec<String> {
     let gen: fn(&Pools, &mut Rng, &mut PB) = match profile {
         "C05" => gen_c05, "C06" => gen_c06, "C07" => gen_c07, "C08" => gen_c08, "C09" => gen_c09, "C10" => gen_c10,
         "C11" => gen_c11, "C13" => gen_c13, "C14" => gen_c14, "C15" => gen_c15,
+        "C16" => gen_c16, "C18" => gen_c18, "C19" => gen_c19, "C20" => gen_c20,
         _ => return Vec::new(),
     };
     let p = pools();
@@ -836,7 +1119,15 @@ pub fn drive2(profile: &str, seed: u64, count: usize) -> Vec<String> {
         let mut pb = PB::new();
         gen(&p, &mut rng, &mut pb);
         pid += 1;
-        if let Some(s) = pb.finish(pid, &["Q", "f64"]) { out.push(s); }
+        let scs: &[&str] = match profile {
+            "C16" => &["Q", "f64", "f32", "i32", "u8", "i64", "u16", "isize"],
+            "C18" => &["Q", "f64", "f32"],
+            "C19" => &["f64"],
+            "C20" => &["f64", "f32"],
+            _ => &["Q", "f64"],
+        };
+        if profile == "C19" || profile == "C20" { pb.fsafe = true; }
+        if let Some(s) = pb.finish(pid, scs) { out.push(s); }
     }
     out
 }
